@@ -21,7 +21,7 @@ import traceback
 VERIF = os.path.dirname(os.path.dirname(os.path.abspath(__file__)))
 LEAN = os.environ.get('DINO_LEAN_DIR') or os.path.join(VERIF, 'lean')
 WORK = os.path.join(VERIF, 'work')
-EVID = os.path.join(VERIF, 'evidence')
+EVID = os.environ.get('VERIF_EVIDENCE_DIR') or os.path.join(VERIF, 'evidence')   # override: seeded-change runs only
 REPO = os.environ.get('DINOSAUR_REPO', '/repo')
 DRV = os.path.join(LEAN, '.lake', 'build', 'bin', 'dinodrv')
 ALLOWED_AXIOMS = {'propext', 'Classical.choice', 'Quot.sound'}
